@@ -297,7 +297,7 @@ def run(tier, only=None):
     t0 = time.time()
     specs = [s for s in SPLITS if not only or s[0] in only or s[0].split(".")[0] in only]
     obs = []
-    if specs and not (only and set(only) <= {"kani", "split", "zz", "theta"}):
+    if specs and not (only and set(only) <= {"kani", "split", "zz", "theta", "divr"}):
         ds = [split_driver(s[0], s[1], s[2], F.BYTAG[s[3]]) for s in specs]
         built = build(ds, tag="C11-default")
         timeout = 120 if tier == "quick" else 1200
@@ -331,6 +331,9 @@ def run(tier, only=None):
     if not only or "theta" in only or "secp256k1" in only:
         from . import C11_theta as TH
         obs.extend(TH.obligations(tier))
+    if not only or "divr" in only or (only and ("jq255e" in only or "gls254" in only)):
+        from . import C11_divr2 as DV
+        obs.extend(DV.obligations(tier))
     if not only or "split" in only:
         from . import C11_split as SP
         obs.extend(SP.obligations(tier))
@@ -353,7 +356,6 @@ def run(tier, only=None):
                            "secp256k1 split_theta: the linear glue between the two rounded quotients and the outputs (truncated products, "
                            "subtraction chains modulo 2^160, abs128) -- posed: the quotients' contract, the constants' identities and the "
                            "magnitude lemma |k0|, |k1| < 2^128",
-                           "the algebraic contract k = k0 + k1*mu and the magnitude bounds of the constant-time splits "
-                           "(stage (i) 'rounded division' lemma of the assume-guarantee proof does not close within budget); "
-                           "posed for them: totality (single straight-line path) and exact sign words"],
+                           "gls254 split_mu_odd: algebraic contract (posed: totality and sign words); posed for jq255e / gls254 split_mu: "
+                           "the rounded quotients' contract, the constants' identities, the magnitude lemma and the glue (props/C11_divr2.py)"],
                   machinery_error=merr)
